@@ -1,5 +1,5 @@
 # C18 - Decoding is deterministic, isolated and race-free
-import os, re, json, copy, collections, threading, time
+import glob, os, re, json, copy, collections, threading, time
 import vlib
 from vlib import Inconclusive
 import corpusarm
@@ -57,6 +57,12 @@ def optsets_for(path):
         for kl in (path + '.keylog', os.path.join(os.path.dirname(path), 'all.keylog')):
             if os.path.isfile(kl):
                 out.append({'keylog': '@file:' + kl})
+                # and a different, non-empty keylog that does not belong to this capture: a table kept from an
+                # earlier decode (the right keys) must not decrypt a later decode that was given other keys
+                others = sorted(f for f in glob.glob(os.path.join(corpusarm.FORMAT_ROOT, 'tls', 'testdata', '**', '*.keylog'), recursive=True)
+                                if f != kl and os.path.getsize(f) > 0 and not f.endswith('all.keylog'))
+                if others:
+                    out.append({'keylog': '@file:' + others[len(os.path.basename(path)) % len(others)]})
                 break
     return out
 
@@ -290,6 +296,12 @@ def build_specs(ctx, binp):
                     specs.append(sp)
                     base['v'][('whole' if whole else 'trunc', 'set' if o else 'unset')] = sp['id']
             bases.append(base)
+            # a SECOND, different option value for the same file (same process in the sequential arm): state kept from a
+            # decode with one value must not show in a decode with another value
+            others = [o for o in osets if o != oset]
+            if others:
+                o2 = others[len(os.path.basename(f)) % len(others)]
+                specs.append(dict(id='k%d' % len(specs), file=f, format=fmt, level=level, opts=o2, trunc=-1, expr=expr))
     return specs, bases, len(pick), len(files)
 
 
